@@ -198,6 +198,24 @@ Proof.
 Qed.
 Print Assumptions C07_recursive_common_exclusions.
 
+(* nearest = longest: an injected package carries the settings of the LONGEST configured recursive
+   path that pulls it in (a proper path prefix of it, at a `/` boundary, not excluding it) - for
+   every iteration order, whatever other packages are configured and however their names sort
+   (api-v2, api.v1, api_v2, api0 next to api and api/internal) *)
+Theorem C07_recursive_longest_prefix : forall t root o m0 k r,
+  full root -> NoDup (map fst m0) -> NoDup (map fst t) -> Permutation o (map fst m0) ->
+  let m1 := init_pkgs root m0 in
+  let final := expand_recursive t root o m0 in
+  lookup k m1 = None -> adopter t m1 r k ->
+  (forall r', adopter t m1 r' k -> length r' <= length r) ->
+  exists p', lookup k final = Some p' /\ p_ifaces p' = [] /\ core (p_cfg p') = core (cfg_of m1 r).
+Proof.
+  intros t root o m0 k r F NDm NDt P m1 final E Hr Hmax.
+  destruct (adopted_nearest t root o m0 F NDm NDt P k r E Hr (longest_is_nearest t m1 r k Hr Hmax))
+    as (p' & E' & Hi & Hc & _). eauto.
+Qed.
+Print Assumptions C07_recursive_longest_prefix.
+
 (* the whole map is the same for every iteration order *)
 Theorem C07_recursive_order_independent : forall t root o o' m0,
   NoDup (map fst m0) -> Permutation o (map fst m0) -> Permutation o' (map fst m0) ->
